@@ -1,7 +1,14 @@
 import TTV.Sexp
-/-! Driver glue for C05 — stub, replaced when the property's model is built. -/
+import TTV.Drv.RunCodec
+import TTV.Spec.C05
+/-! Driver glue for C05 (model M-Run, codecs in RunCodec). -/
 namespace TTV.Drv.C05
-open TTV
+open TTV TTV.Run
 
-def handle (_ : List Sexp) : Sexp := .atom "unimplemented"
+def drv : PropDrv Input (List Trace) :=
+  { decI := RunCodec.input?, decT := RunCodec.traces?, encT := RunCodec.ofTraces, model := model,
+    clauses := Spec.C05.clauses,
+    classes := fun i => if Spec.C05.lateCollision i then ["lateCollision"] else [] }
+
+def handle : List Sexp → Sexp := drv.handle
 end TTV.Drv.C05
